@@ -5,6 +5,7 @@
 package satomic
 
 import (
+	"strings"
 	real "sync/atomic"
 
 	"rendsim/shadow/hub"
@@ -19,7 +20,7 @@ func yield(op string) {
 		return
 	}
 	who := r.WhoAmI()
-	if who == "" {
+	if who == "" || !strings.HasPrefix(who, r.YieldPrefix) {
 		return
 	}
 	r.Park(&hub.Parked{Kind: "atomic", Obj: op, Who: who})
